@@ -65,6 +65,9 @@ def run(ctx):
         diffs = ex.private_serves_canonical()
         ctx.check(not diffs, "R1", f"group {reg.key}: a freshly initialised private table serves the same values as the public one",
                   f"{diffs[:3]}", site)
+        diffs0 = ex.private_serves_canonical(public_first=False)
+        ctx.check(not diffs0, "R1", f"group {reg.key}: a private table initialised before the public group was ever touched serves the table's own values",
+                  f"{diffs0[:3]}", site)
         # R3 no shared mutable data
         shared = ex.shared_mutables()
         kinds = {}
